@@ -372,6 +372,11 @@ func (e *c20Engine) generate(seed uint64) (*kit.Trace, *kit.Rng) {
 	profile := cr.Intn(4)
 	if duel {
 		profile = 6
+		// both filters know a few of the data items the transactions carry, so
+		// that which script's pushes a filter is handed decides its answers
+		for i, n := 0, cr.Range(0, 2); i < n; i++ {
+			t.Setup = append(t.Setup, kit.Op{K: "preadd", D: kit.Hex(pool[cr.Intn(len(pool))])})
+		}
 	}
 	if nt >= 8 && kind == kindLin && cr.Chance(3, 4) {
 		profile = 4 // insert/query only: decidable for many tasks
@@ -421,6 +426,9 @@ func (e *c20Engine) generate(seed uint64) (*kit.Trace, *kit.Rng) {
 		// (package-level caches) shows up here.
 		t.Setup = append(t.Setup, kit.Op{K: "bymsg", N: []int64{int64(cr.Range(1, 16)), int64(cr.Range(1, 6)), int64(cr.U32()), int64(cr.Intn(3))}})
 		var ops []kit.Op
+		if duel && wr.Chance(1, 2) {
+			ops = append(ops, kit.Op{K: "add", D: kit.Hex(pool[wr.Intn(len(pool))]), S: "by"})
+		}
 		for i, n := 0, wr.Range(2, 8); i < n; i++ {
 			o := e.genOp(wr, kind, 4, 0, nt, nm, ntx, pool, hashes)
 			if duel || wr.Chance(2, 5) {
